@@ -122,7 +122,7 @@ def dispatch(ctx: Ctx) -> None:
     fb = [r for r in rets if not isinstance(r.value.elts[1], ast.Constant)]
     r = one(fb, f"fallback return in {DETECT}")
     good = False
-    for n in ast.walk(r.value.elts[1]):
+    for n in ast.walk(inline(r.value.elts[1], fi)):
         if isinstance(n, ast.Compare) and len(n.ops) == 1 and isinstance(n.ops[0], ast.Eq):
             l, rr = n.left, n.comparators[0]
             for a, b in ((l, rr), (rr, l)):
@@ -250,6 +250,6 @@ def peek_copy(ctx: Ctx) -> None:
         if callee_name(ctx, fi, c).endswith("parse_msd"):
             kw = {k.arg: k.value for k in c.keywords}
             if "string" in kw:
-                m = match("''.join($x)", kw["string"])
+                m = match("''.join($x)", inline(kw["string"], fi))
                 okp = m is not None and isinstance(m["x"], ast.Name) and any(b.kind.startswith("unpack") or b.kind == "assign" for b in locals_of(fi).b.get(m["x"].id, []))
                 ctx.expect("R-REWIND", fi, "the peek parses the complete text of the other copy", okp, src(kw["string"]), f"string={src(kw['string'])}", node=c)
